@@ -35,6 +35,12 @@ def removeOldest : List Seg → Bool × List Seg
 def gatedDeleteOldest (gateBusy : Bool) (lst : List Seg) : Bool × List Seg :=
   if gateBusy then (false, lst) else removeOldest lst
 
+/-- `segmentController.removeSeg` on the ids of the list: drop the first entry whose id equals `segID`
+    (`for i, b := range sc.lst { if b.id == segID { … break } }`). -/
+def removeSeg (segID : Nat) : List Nat → List Nat
+  | [] => []
+  | b :: rest => if b = segID then rest else b :: removeSeg segID rest
+
 /-- `getRetentionDeadline`: `clock.Now().Add(-TTL.estimatedDuration())` -/
 def retentionDeadline (now : Int) (ttl : IntervalRule) : Int := now - ttl.estimatedDuration
 
